@@ -190,62 +190,74 @@ def run(ctx, res):
     if n_inv == 0:
         res.bad("C03.R2", site(nxt, "invalid-is-sticky"), "next does not test `valid` first", nxt.loc(nxt.body))
 
-    # ---- R3 needs_index_seek ------------------------------------------------------------
-    res.floor("C03.R3", 5)
-    nis = prog.need("needs_index_seek", U)
-    res.saw(nis)
-    ev = APE.run(prog, cg, nis, bound=APE.BOUND)
-    for p in ev.paths:
+    # ---- R3 the index iterator may stay where it is only when the table's six conditions are all false ------------
+    # Decided on the paths of reader_iter_seek itself, with the decision helper (if there is one) evaluated as part of
+    # it: a path that does NOT re-seek the index iterator must have established, by tests on that very path,
+    #   !first, a block is loaded, the block iterator has an entry whose key <= target,
+    #   the index iterator has an entry whose key >= target.
+    # Re-seeking the index more often than necessary is always correct (it is a fresh lower-bound search), so nothing is
+    # demanded of the paths that do seek.
+    res.floor("C03.R3", 3)
+    KEY, KLEN = ("s", seek.params[1]["name"]), ("s", seek.params[2]["name"])
+    evk = APE.run(prog, cg, seek, bound=APE.BOUND, inline=("needs_index_seek",))
+    n_keep = n_seek = 0
+    for p in evk.paths:
         if p.end != "exit":
             continue
         evs = [e for e in p.events if e.kind == "call"]
-        D = {}   # disjunct -> True/False/None
-
-        def tv(c, true_set):
-            if c is None:
-                return None
-            if c <= true_set:
-                return True
-            if not (c & true_set):
-                return False
-            return None
-        for (a, b), v in p.cons.items():
-            if re.match(r"^it->first@\d+$", a) and b == "#0":
-                D["first"] = tv(v, frozenset((LT, GT)))
-            if re.match(r"^it->b@\d+$", a) and b == "#0":
-                D["no_block"] = tv(v, frozenset((EQ,)))
+        iseek = [e for e in evs if e.a == "block_iter_seek" and e.b and strip_tags(APE.vstr(e.b[0])).endswith("->index_iter")]
+        if iseek:
+            n_seek += 1
+            res.check(iseek[0].b[1:3] == [KEY, KLEN] or tuple(iseek[0].b[1:3]) == (KEY, KLEN), "C03.R3", site(seek, "index-seek:target"),
+                      "the index iterator is re-positioned at the target key",
+                      "the index iterator is re-positioned at (%s,%s), not at the target" % tuple(APE.vstr(x) for x in iseek[0].b[1:3]),
+                      seek.loc(iseek[0].node), p.describe(seek))
+            continue
+        n_keep += 1
+        est = {"first": False, "block": False, "bi": False, "index": False}
+        for (a_, b_), v in p.cons.items():
+            if re.match(r"^\w+->first@\d+$", a_) and b_ == "#0" and v <= frozenset((EQ,)):
+                est["first"] = True
+            if re.match(r"^\w+->b@\d+$", a_) and b_ == "#0" and EQ not in v:
+                est["block"] = True
         for e in evs:
-            if e.a == "block_iter_get":
-                a0 = canon(call_args(e.node)[0])
-                which = "bi" if a0.endswith("->bi") else "index" if a0.endswith("->index_iter") else None
-                if which is None:
+            if e.a != "block_iter_get" or not e.b:
+                continue
+            a0 = strip_tags(APE.vstr(e.b[0]))
+            which = "bi" if a0.endswith("->bi") else "index" if a0.endswith("->index_iter") else None
+            if which is None:
+                continue
+            c_ = p.cons.get((APE.vstr(e.c), "#0"))
+            if c_ is None or EQ in c_:
+                continue      # not established that this iterator has an entry
+            for e2 in evs:
+                if e2.a != "bytes_compare" or len(e2.b) != 4:
                     continue
-                D[which + "_invalid"] = tv(p.cons.get((APE.vstr(e.c), "#0")), frozenset((EQ,)))
-                for e2 in evs:
-                    if e2.a == "bytes_compare" and e2.b[0] == e.outs.get(1) and e2.b[1] == e.outs.get(2) and \
-                            e2.b[2] == ("s", nis.params[1]["name"]) and e2.b[3] == ("s", nis.params[2]["name"]):
-                        c = p.cons.get((APE.vstr(e2.c), "#0"))
-                        D[which + "_cmp"] = tv(c, frozenset((GT,)) if which == "bi" else frozenset((LT,)))
-        vals = [D.get(k) for k in ("first", "no_block", "bi_invalid", "bi_cmp", "index_invalid", "index_cmp")]
-        exp = True if any(v is True for v in vals) else (False if all(v is False for v in vals) else None)
-        r = p.ret()
-        tag = ",".join("%s=%s" % (k, {True: "T", False: "F", None: "-"}[D.get(k)]) for k in ("first", "no_block", "bi_invalid", "bi_cmp", "index_invalid", "index_cmp"))
-        if exp is None:
-            res.bad("C03.R3", site(nis, tag), "index seek decision taken without evaluating the table's conditions (returns %s)" % APE.vstr(r),
-                    nis.loc(nis.body), p.describe(nis))
-        else:
-            res.check(r == ("c", 1 if exp else 0), "C03.R3", site(nis, tag),
-                      "index seek needed iff first | no block | block iter invalid | current > target | index iter invalid | index key < target",
-                      "needs_index_seek returns %s where the table says %s" % (APE.vstr(r), exp), nis.loc(nis.body), p.describe(nis))
-    # the decision is honoured by seek: index seek iff needs_index_seek
-    sk = [B for B in cond_blocks(seek) if is_call(B.cond, "needs_index_seek")]
-    ok = False
-    for B in sk:
-        acts, _ = edge_actions(seek, B, 0)
-        if any(is_call(a, "block_iter_seek") and "index_iter" in canon(call_args(a)[0]) for a in acts):
-            ok = True
-    res.check(ok, "C03.R3", site(seek, "needs_index_seek->index-seek"), "seek re-positions the index iterator when the table says so",
-              "reader_iter_seek does not seek the index iterator on needs_index_seek", seek.loc(seek.body))
+                cc = p.cons.get((APE.vstr(e2.c), "#0"))
+                if cc is None:
+                    continue
+                if (e2.b[0], e2.b[1]) == (e.outs.get(1), e.outs.get(2)) and (e2.b[2], e2.b[3]) == (KEY, KLEN):
+                    sgn = cc
+                elif (e2.b[2], e2.b[3]) == (e.outs.get(1), e.outs.get(2)) and (e2.b[0], e2.b[1]) == (KEY, KLEN):
+                    sgn = APE.mirror(cc)
+                else:
+                    continue
+                # sgn = possible signs of (entry key ? target)
+                if which == "bi" and GT not in sgn:
+                    est["bi"] = True
+                if which == "index" and LT not in sgn:
+                    est["index"] = True
+        missing = [k for k, v in est.items() if not v]
+        tag = "keep-index-position"
+        res.check(not missing, "C03.R3", site(seek, tag),
+                  "index iterator kept only with: not first, block loaded, current key <= target, current index key >= target - all tested on the path",
+                  "reader_iter_seek keeps the index iterator where it is although the path has not established %s: the target may lie in "
+                  "another block" % ", ".join({"first": "that this is not the first use", "block": "that a block is loaded",
+                                               "bi": "that the current key is <= the target", "index": "that the current index key is >= the target"}[m] for m in missing),
+                  seek.loc(seek.body), p.describe(seek))
+    if n_seek == 0:
+        res.bad("C03.R3", site(seek, "index-seek"), "no path of reader_iter_seek re-positions the index iterator", seek.loc(seek.body))
+    res.tables["C03.R3.paths"] = {"keep": n_keep, "seek": n_seek}
 
     # exhaustion state: the seek shortcut (start_ri == left) relies on an exhausted iterator having restart_index == num_restarts
     for fn in ("parse_next_key", "block_iter_prev"):
